@@ -395,7 +395,14 @@ def merge_variants(results):
 
 
 def static_assumptions(prop, mine, results):
-    out = ["A-real: Python floats modelled as mathematical reals (no rounding, NaN, inf, -0.0)", "z3 4.x / cvc5 1.x soundness", "vc/ interpreter semantics of the Python subset (cross-checked against CPython by the bounded tier: every proved clause is also executed natively)"]
+    no_native = sorted({c.target for c in mine if not c.assumed and not c.bounded_only and c.kind != "lemma" and not getattr(c, "native", True)})
+    out = [
+        "A-real: Python floats modelled as mathematical reals (no rounding, NaN, inf, -0.0)",
+        "z3 4.x / cvc5 1.x soundness",
+        "vc/ interpreter semantics of the Python subset (cross-checked against CPython by the bounded tier, which executes the same clauses natively"
+        + ("; NOT cross-checked for contracts over ghost / element models, which have no native entry point: " + ", ".join(no_native) if no_native else "")
+        + ")",
+    ]
     for c in mine:
         if c.assumed:
             out.append(f"assumed contract of dependency: {c.target} ({c.note})" if c.note else f"assumed contract of dependency: {c.target}")
